@@ -438,10 +438,10 @@ func (v *V) RawCBOR() []byte {
 	return b
 }
 
-// FailJSON is a value whose MarshalJSON always fails.
-type FailJSON struct{}
+// FailJSON is a value whose MarshalJSON always fails, with an arbitrary error text.
+type FailJSON struct{ Msg string }
 
-func (FailJSON) MarshalJSON() ([]byte, error) { return nil, errors.New("nope \"x\"\n") }
+func (f FailJSON) MarshalJSON() ([]byte, error) { return nil, errors.New("nope \"x\"\n" + f.Msg) }
 
 type sampleStruct struct {
 	A int               `json:"a"`
@@ -501,7 +501,7 @@ func (v *V) ifaceValue(depth int) interface{} {
 
 func (v *V) Iface() interface{} {
 	if v.R.Chance(1, 15) {
-		return FailJSON{}
+		return FailJSON{v.String()}
 	}
 	return v.ifaceValue(2)
 }
